@@ -212,6 +212,27 @@ def check_pair(ctx, ast, text, smi, how, mol, alt_texts=()):
                        'satisfying_but_omitted': missing,
                        'n_real': len(got), 'n_reference': len(want)})
         return 'mismatch'
+    # the query object's copies / unpickled copies (where the object can be
+    # cloned at all) return the same embeddings
+    if _QUERIES['n'] % 5 == 0:
+        from vmon.core import clones
+        made, failed = clones.make(q)
+        for label, why in failed:
+            ctx.skip('%s of a fragment query not possible (%s)' % (label,
+                                                                   why))
+        for label, qc in made:
+            co = observe(qc.GetQueryMatches, mol)
+            ctx.evals()
+            got_c = None if 'exc' in co else set(
+                tuple(int(i) for i in t) for t in co['ok'])
+            if got_c != want:
+                ctx.violation('a %s of the query object does not return the '
+                              'denoted embeddings' % label, case,
+                              {'outcome': co.get('exc', 'other matches'),
+                               'n_clone': None if got_c is None
+                               else len(got_c), 'n_reference': len(want)})
+                return 'clone'
+            ctx.count('query_object_clones_held_to_the_denotation')
     # metamorphic: other layout / labels
     for t2 in alt_texts:
         r2 = observe(lambda: tuple(tuple(int(i) for i in t)
